@@ -17,6 +17,7 @@ LEVEL_TEXT = ("Writer-table analysis on the MIR of graph.rs (E8.j): Serialize fo
               "strings stay quoted).  display_json serialises `self`, creates/truncates the output file and writes all bytes.")
 LEVEL_NOTE = ("Not decided: validity and escaping of the JSON text (serde_json's job, trusted) and decode-equals-API over all graphs.  JSON "
               "object member order of `attrs` follows hash order: objects are unordered in JSON, so this is not treated as a violation.")
+LEVEL_TEXT += (" Attribute names (the keys of every `attrs` object) are serialised as their own text; the fields of the private serialisation wrappers are resolved through their construction sites, so the wrappers' shape is free.")
 
 VALUE = "tsg::graph::Value"
 
@@ -103,7 +104,7 @@ def run(prog, rep):
     def built_from(wrapper):
         """{field of the private wrapper: what its (single) construction site puts there}, as canon text of the constructing body"""
         sites = []
-        for g in prog.fns.values():
+        for g in prog.shape_fns():
             if g.body is None or g.file != "src/graph.rs":
                 continue
             gtr = None
@@ -263,7 +264,7 @@ def run(prog, rep):
         nx = [(b, t) for b, t in body.calls() if is_callee(t, r"Iterator::next$|Iterator>::next$")]
         srcs = [canon(tr.operand(t["args"][0])) for b, t in nx]
         ok_nodes = any(re.search(r"Iterator::enumerate\(slice::iter\(&\*Deref::deref\(&\*\*?arg:self\.0\.graph_nodes\)\)\)", s) and not re.search(r"\b(rev|skip|take|filter)\(", s) for s in srcs)
-        ok_edges = any(re.search(r"IntoIterator::into_iter\(&\*?\(.*\)\.0\.1\.outgoing_edges\)", s) and not re.search(r"\b(rev|skip|take|filter)\(", s) for s in srcs)
+        ok_edges = any(re.search(r"(IntoIterator::into_iter|slice::iter|SmallVec::iter)\(&\*?(Deref::deref\(&\*?)?\(.*\)\.0\.1\.outgoing_edges\)", s) and not re.search(r"\b(rev|skip|take|filter)\(", s) for s in srcs)
         writes = [(b, t) for b, t in body.calls() if is_callee(t, r"Formatter::<'a>::write_fmt$")]
         rep.check(ok_nodes and ok_edges and len(writes) == 2, "C14.P", "pretty_print :: loops", f.loc(), "nodes enumerate()d, each node's outgoing_edges iterated, one write per node and per edge",
                   "pretty_print does not walk all nodes and all of their edges (nodes=%s edges=%s writes=%d)" % (ok_nodes, ok_edges, len(writes)))
